@@ -311,18 +311,19 @@ class Cache:
             if self.group_by or self.is_summarized:
                 return "join with a grouped table"
 
+            # (hidden columns stay reachable through their original references after the join, so they count, too)
             if (node.how == "full" or (node.child not in self.derived_from and node.how == "left")) and any(
-                types.is_const(self.cols[uid].dtype()) for uid in self.uuid_to_name.keys()
+                types.is_const(col.dtype()) for col in self.cols.values()
             ):
                 return "left / full join with a table containing a constant column"
 
             # The select list is evaluated after the join. On the null-padded side of a left / full join this is only
             # correct for columns that are null whenever their inputs are (`fill_null`, `is_null`, `coalesce`, case
             # expressions, ... give a non-null value for a padded row).
-            if (node.how == "full" or (node.child not in self.derived_from and node.how == "left")) and not self.null_absorbing.isdisjoint(self.uuid_to_name.keys()):
+            if (node.how == "full" or (node.child not in self.derived_from and node.how == "left")) and not self.null_absorbing.isdisjoint(self.cols.keys()):
                 return "left / full join with a table containing a column that is not null for null inputs"
 
-            if any(self.cols[uid].ftype() == Ftype.WINDOW for uid in self.uuid_to_name.keys()):
+            if any(col.ftype() == Ftype.WINDOW for col in self.cols.values()):
                 return "join with a table containing window function expression"
 
             if any(
